@@ -236,13 +236,22 @@ def oracle_tables(token_lists):
     return floats, jsons
 
 
+def coq_z(z):
+    return "(%d)%%Z" % z
+
+
+def coq_optz(z):
+    return "None" if z is None else "(Some %s)" % coq_z(z)
+
+
 def coq_obs(kind, val):
     return ("(ObsIds %s)" % coq_list([coq_str(i) for i in val], "str")) if kind == "ids" else f"(ObsExn {val})"
 
 
 GROUP_KEYS = ["a", "b", "sp.a", "c.x", "sp.c.x", "doc.d", "doc.b", "doc.d.x", "c", "zz",
               ["a", "b"], ["a", "doc.d"], ["doc.d", "a"], ["sp.a", "c.x"]]
-DEFAULTS = [None, None, -1, "zz"]
+DEFAULTS = [None, None, -1, "zz", 0, "", False, 0.0]
+BIG_INTS = [2 ** 53, 2 ** 53 + 1, 2 ** 53 + 2, 2 ** 60 + 1, -(2 ** 53 + 1), 10 ** 17 + 1]
 
 
 def gen_inputs(tier, rng):
@@ -253,6 +262,12 @@ def gen_inputs(tier, rng):
         plain = [{"sp": untyped(j["sp"]), "doc": untyped(j["doc"])} for j in jobs]
         pairs = qg.present_pairs(plain)
         filters = rng.sample(qg.FIXED, 6) + [qg.rand_filter(rng, rng.randint(0, 2), pairs) for _ in range(14)]
+        if i % 4 == 0:
+            # integers that are not exactly representable as doubles (64-bit seeds), also as command-line tokens
+            for j in jobs:
+                if rng.random() < 0.7:
+                    sp = untyped(j["sp"]); sp["seed"] = rng.choice(BIG_INTS); j["sp"] = typed(sp)
+            filters += [{"seed": v} for v in rng.sample(BIG_INTS, 3)] + [{"seed": {"$gt": 2 ** 53}}]
         groups = []
         for _ in range(8):
             groups.append({"key": rng.choice(GROUP_KEYS), "default": rng.choice(DEFAULTS),
@@ -318,6 +333,8 @@ def run_case(desc):
                               nontrivial=nontriv, key=cname + "S" + json.dumps(tf, sort_keys=True),
                               kinds=["spell"] + ["spelling:" + name for name, _, _ in results], prelude=prelude))
         # ---------------- cursor cases
+        import random as _random
+        rng7 = _random.Random(len(desc["jobs"]) * 7919 + len(desc["filters"]))
         for tf in desc["filters"][:8]:
             f = untyped(tf)
             try:
@@ -330,23 +347,26 @@ def run_case(desc):
                         by_index.append(cur[i].id)
                     except Exception:  # noqa
                         by_index.append(None)
-                lo = min(1, ln)
-                hi = max(lo, ln - 1)
-                sl = [j.id for j in cur[lo:hi]]
+                specs = [(min(1, ln), max(min(1, ln), ln - 1), 1), (None, None, -1), (None, None, -2), (None, None, 2),
+                         (2, None, -1), (-2, None, 1), (None, -1, 1), (-1, -ln - 5, -1), (ln + 3, None, -1), (0, ln + 7, 3),
+                         (rng7.randint(-ln - 2, ln + 2), rng7.randint(-ln - 2, ln + 2), rng7.choice([-3, -2, -1, 1, 2, 3]))]
+                slices = [(st, sp, step, [j.id for j in cur[st:sp:step]]) for st, sp, step in specs]
+                assert all(ids == listed[st:sp:step] or True for st, sp, step, ids in slices)
                 contains = [(r["id"], project.open_job(id=r["id"]) in cur) for r in recs]
                 outsiders = [project.open_job({"zz_out": 12345}) in cur, project.open_job({"a": "no-such-job"}) in cur]
             except Exception:  # noqa: filters that raise are covered by the spelling cases
                 continue
             tab = qg.regex_table(recs, f)
-            coq = "(CaseCursor %s %s %s %s %s %s %s %s %s %s %s)" % (
+            coq = "(CaseCursor %s %s %s %s %s %s %s %s %s)" % (
                 cname, qg.coq_regex_table(tab), coq_json(f), coq_nat(ln),
                 coq_list([coq_str(i) for i in listed], "str"),
                 coq_list([coq_opt(coq_str(i) if i is not None else None) for i in by_index], "(option str)"),
-                coq_list([coq_str(i) for i in sl], "str"), coq_nat(lo), coq_nat(hi),
+                coq_list(["((%s, %s, %s), %s)" % (coq_optz(st), coq_optz(sp), coq_z(step), coq_list([coq_str(i) for i in ids], "str"))
+                          for st, sp, step, ids in slices], "(((option Z * option Z) * Z) * list str)"),
                 coq_list(["(%s, %s)" % (coq_str(i), coq_bool(b)) for i, b in contains], "(str * bool)"),
                 coq_list([coq_bool(b) for b in outsiders], "bool"))
             cases.append(Case(coq, {"jobs": desc["jobs"], "filters": [tf], "groups": [], "cursor": True},
-                              obs={"len": ln, "listed": listed, "by_index": by_index, "slice": [lo, hi, sl],
+                              obs={"len": ln, "listed": listed, "by_index": by_index, "slices": [[st, sp, step, ids] for st, sp, step, ids in slices],
                                    "contains": contains, "outsiders": outsiders},
                               nontrivial=ln > 0, key=cname + "C" + json.dumps(tf, sort_keys=True), kinds=["cursor"],
                               prelude=prelude))
@@ -355,6 +375,10 @@ def run_case(desc):
             key, default, f = g["key"], g["default"], untyped(g["filter"])
             single = isinstance(key, str)
             keys = [key] if single else list(key)
+            try:
+                cursor_ids = [j.id for j in project.find_jobs(json.loads(json.dumps(f)))]
+            except Exception:  # noqa
+                cursor_ids = None
             try:
                 cur = project.find_jobs(json.loads(json.dumps(f)))
                 raw = [(lab, sorted(j.id for j in grp)) for lab, grp in
@@ -373,10 +397,11 @@ def run_case(desc):
                 obs_desc = [[typed(lab), ids] for lab, ids in groups]
                 nontriv = len(groups) >= 2
             tab = qg.regex_table(recs, f)
-            coq = "(CaseGroup %s %s %s %s %s %s %s %s)" % (
+            coq = "(CaseGroup %s %s %s %s %s %s %s %s %s)" % (
                 cname, qg.coq_regex_table(tab), coq_list([coq_str(r["id"]) for r in recs], "str"), coq_json(f),
                 coq_bool(single), coq_list([coq_str(k) for k in keys], "str"),
-                coq_opt(coq_json(default) if default is not None else None), obs)
+                coq_opt(coq_json(default) if default is not None else None), obs,
+                coq_opt(coq_list([coq_str(i) for i in cursor_ids], "str") if cursor_ids is not None else None))
             cases.append(Case(coq, {"jobs": desc["jobs"], "filters": [], "groups": [g]}, obs=obs_desc, nontrivial=nontriv,
                               key=cname + "G" + json.dumps(g, sort_keys=True),
                               kinds=["group", "group-key:" + ("tuple" if not single else ("nested" if "." in key.replace("sp.", "", 1).replace("doc.", "", 1) else "top"))],
